@@ -349,6 +349,16 @@ def s_yf_list(L, H, box):
     L(('r', r))
     yield 3
 
+def s_yf_list_catch(L, H, box):
+    try:
+        r = yield from [1, 2]
+        L(('r', r))
+    except ValueError as e:
+        L(('ve', e.args))
+        yield 'c1'
+        yield 'c2'
+    yield 3
+
 def s_yf_pygen(L, H, box):
     r = yield from H.pysub(L)
     L(('r', r))
@@ -665,7 +675,7 @@ async def a_return(L, H, box):
 
 SYNC = ['s_yield2', 's_echo', 's_for', 's_while', 's_finally', 's_finally_yield', 's_ge_yield', 's_ge_return',
         's_ge_reraise', 's_ge_other', 's_ve_yield', 's_ve_return', 's_ve_reraise', 's_ve_other', 's_si_yield',
-        's_si_reraise', 's_yf_list', 's_yf_pygen', 's_yf_own', 's_yf_nextonly', 's_yf_nextclose', 's_yf_full',
+        's_si_reraise', 's_yf_list', 's_yf_list_catch', 's_yf_pygen', 's_yf_own', 's_yf_nextonly', 's_yf_nextclose', 's_yf_full',
         's_yf_full_tr', 's_yf_full_ty', 's_yf_full_cr', 's_return_first', 's_return_after', 's_raise_si',
         's_raise_si_first', 's_raise_plain', 's_reenter', 's_reenter_close', 's_nested_try', 's_finally_return',
         's_with', 's_with_swallow', 's_yf_in_try', 's_yf_catch', 's_yf_chain', 's_genexp', 's_in_except',
@@ -681,7 +691,7 @@ BODY_CLASS = {
     's_finally_yield': 'yield-in-finally', 's_ge_yield': 'except-GeneratorExit', 's_ge_return': 'except-GeneratorExit',
     's_ge_reraise': 'except-GeneratorExit', 's_ge_other': 'except-GeneratorExit', 's_ve_yield': 'except-ValueError',
     's_ve_return': 'except-ValueError', 's_ve_reraise': 'except-ValueError', 's_ve_other': 'except-ValueError',
-    's_si_yield': 'except-StopIteration', 's_si_reraise': 'except-StopIteration', 's_yf_list': 'yieldfrom-iter',
+    's_si_yield': 'except-StopIteration', 's_si_reraise': 'except-StopIteration', 's_yf_list': 'yieldfrom-iter', 's_yf_list_catch': 'yieldfrom-iter',
     's_yf_pygen': 'yieldfrom-pygen', 's_yf_own': 'yieldfrom-owngen', 's_yf_nextonly': 'yieldfrom-iter',
     's_yf_nextclose': 'yieldfrom-iter', 's_yf_full': 'yieldfrom-object', 's_yf_full_tr': 'yieldfrom-object',
     's_yf_full_ty': 'yieldfrom-object', 's_yf_full_cr': 'yieldfrom-object', 's_return_first': 'return',
